@@ -80,6 +80,10 @@ def mutants(s, name, rnd, quick):
             yield "zero-pad-number", s[:m.start()] + "0" + m.group() + s[m.end():]
             yield "huge-number", s[:m.start()] + "9" * 12 + s[m.end():]
             yield "huge-number", s[:m.start()] + "-" + m.group() + s[m.end():]
+            n = int(m.group())
+            for alt in {n - 1, n + 1, n // 10, 1, 0} - {n}:
+                if alt >= 0:
+                    yield "other-number", s[:m.start()] + str(alt) + s[m.end():]
     sw = swapcase_hex(s)
     if sw != s:
         yield "case-hex", sw
@@ -95,6 +99,36 @@ def mutants(s, name, rnd, quick):
             yield "subst", s[:i] + bcrypt64.charmap[idx ^ 16] + s[i + 1:]      # a USED bit of the salt: must not verify
 
 
+def leniency(mutant, original):
+    """which decoder leniency lets `mutant` be read as `original` (classification of a finding, never pass/fail):
+    <edit>:<class of the characters involved>[:last] - e.g. insert:blank (int() strips blanks), insert:zero (leading zeros),
+    insert:foreign (base64 decoders skip characters outside their alphabet), replace:digits (a number was changed!)"""
+    import difflib
+    ops = [op for op in difflib.SequenceMatcher(None, original, mutant, autojunk=False).get_opcodes() if op[0] != "equal"]
+    if len(ops) != 1:
+        return "several-edits"
+    tag, i1, i2, j1, j2 = ops[0]
+    old, new = original[i1:i2], mutant[j1:j2]
+
+    def cat(t):
+        if not t:
+            return ""
+        if t.isdigit():
+            return "zero" if set(t) == {"0"} else "digits"
+        if t.isspace():
+            return "blank"
+        if t == "=":
+            return "pad"
+        if t.isalnum() and t.isascii():
+            return "alnum"
+        if all(c in "./+-_" for c in t):
+            return "b64punct"
+        return "foreign"
+    # the last digit of a base64 FIELD (before a '$' or the end) carries unused bits
+    where = ":last" if tag == "replace" and len(old) == 1 and (i2 == len(original) or original[i2] in "$=") else ""
+    return f"{tag}:{cat(old)}>{cat(new)}{where}" if tag == "replace" else f"{tag}:{cat(new or old)}"
+
+
 def outcome(fn, *a, **k):
     try:
         return str(bool(fn(*a, **k))) if fn(*a, **k) in (True, False) else "Other"
@@ -106,16 +140,36 @@ def outcome(fn, *a, **k):
         return "Internal:" + type(e).__name__
 
 
+class _Watchdog(Exception):
+    pass
+
+
+def _alarm(signum, frame):
+    raise _Watchdog()
+
+
 def call1(fn, *a, **k):
+    """one public call under a watchdog: an altered string that makes the library grind for ages (e.g. an absurd cost taken
+    at face value) has not been rejected cleanly"""
+    import signal
+    signal.signal(signal.SIGALRM, _alarm)
+    signal.setitimer(signal.ITIMER_REAL, CALL_LIMIT_S)
     try:
         r = fn(*a, **k)
         return "True" if r is True else "False" if r is False else f"Other:{type(r).__name__}"
+    except _Watchdog:
+        return "NoAnswer"
     except ValueError:
         return "ValueError"
     except TypeError:
         return "TypeError"
     except Exception as e:   # internal error
         return "Internal:" + type(e).__name__
+    finally:
+        signal.setitimer(signal.ITIMER_REAL, 0)
+
+
+CALL_LIMIT_S = 15
 
 
 def run(chk):
@@ -136,6 +190,8 @@ def run(chk):
     agg = {}
     events = []
     total = 0
+    restore = []
+    skipped_expensive = [0]
     for name in names:
         if name in skip:
             continue
@@ -151,8 +207,13 @@ def run(chk):
             ctxobj = CryptContext(schemes=[name])
         except Exception:
             ctxobj = None
-        for s, ckw in valid_hashes(name, h)[: (2 if quick else 4)]:
+        for s, ckw in valid_hashes(name, h)[: (3 if quick else 5)]:
             padpos = len(s) - PADREPAIR_WRAPPED.get(name, 31)
+            try:
+                orig_rounds = h.parsehash(s).get("rounds")
+            except Exception:
+                orig_rounds = None
+            log2 = getattr(getattr(h, "wrapped", h), "rounds_cost", "linear") == "log2"
             seen = set()
             for kind, m in mutants(s, name, rnd, quick):
                 if m == s or (kind, m) in seen:
@@ -173,8 +234,25 @@ def run(chk):
                     calls = [("identify", lambda: h.identify(mm)), ("verify", lambda: h.verify(PW, mm, **vkw)), ("needs_update", lambda: h.needs_update(mm))]
                     if ctxobj is not None and form == "str" and name != "scram":
                         calls += [("ctx_verify", lambda: ctxobj.verify(PW, mm, **ckw)), ("ctx_needs_update", lambda: ctxobj.needs_update(mm))]
+                    # a mutant that is a VALID string with a much higher cost is not malformed: computing it is legitimate (and slow), skip the computation
+                    expensive = False
+                    try:
+                        ph = h.parsehash(mm)
+                        r1 = ph.get("rounds")
+                        if isinstance(r1, int) and isinstance(orig_rounds, int):
+                            expensive = r1 > orig_rounds + 3 if log2 else r1 > max(orig_rounds * 20, 20000)
+                        if name == "scrypt" and (ph.get("block_size", 8) > 64 or ph.get("parallelism", 1) > 16):
+                            expensive = True
+                    except Exception:
+                        pass
                     for cname, fn in calls:
+                        if expensive and cname in ("verify", "ctx_verify"):
+                            skipped_expensive[0] += 1
+                            continue
                         out = call1(fn)
+                        if out == "NoAnswer":
+                            skipped_expensive[0] += 1
+                            continue
                         total += 1
                         key = (name, kind, cname, out)
                         a = agg.setdefault(key, {"n": 0, "witness": m, "form": form})
@@ -182,6 +260,11 @@ def run(chk):
                         if out == "True" and cname in ("verify", "ctx_verify"):
                             events.append({"fam": fam, "hasher": name, "kind": kind, "call": cname, "outcome": out, "padpos": padpos,
                                            "mutant": [ord(c) for c in m], "original": [ord(c) for c in s]})
+    for wb, old in restore:
+        try:
+            wb.set_backend(old)
+        except Exception:
+            pass
     # aggregated classes: one event per class (the outcome rules do not depend on the text)
     for (name, kind, cname, out), a in sorted(agg.items()):
         if out == "True" and cname in ("verify", "ctx_verify"):
@@ -190,6 +273,7 @@ def run(chk):
                        "padpos": 0, "mutant": [], "original": [], "_n": a["n"], "_witness": a["witness"], "_form": a["form"]})
         chk.count((name, kind, cname, out))
     chk.evaluations = total
+    chk.extra["verify_calls_skipped_as_valid_but_expensive"] = skipped_expensive[0]
     wd = VERIF / "out" / "work" / "C08_trace_in"
     wd.mkdir(parents=True, exist_ok=True)
     (wd / "events.json").write_text(json.dumps([{k: v for k, v in e.items() if not k.startswith("_") and k != "hasher"} for e in events]))
@@ -216,10 +300,11 @@ def run(chk):
         if e["hasher"] == "scram" and e["outcome"] == "True":
             continue        # a scram hash holding a subset of the digests is a valid hash of the same password
         if lenient:
-            chk.extra.setdefault("lenient_decoding_hashers", [])
-            if e["hasher"] not in chk.extra["lenient_decoding_hashers"]:
-                chk.extra["lenient_decoding_hashers"].append(e["hasher"])
-            chk.violation("lenient-decoding", f"{e['hasher']}.{e['call']}: lenient decoding: an undocumented re-spelling of the same digest bits verified",
+            mech = leniency(wit, "".join(map(chr, e["original"])))
+            chk.extra.setdefault("lenient_decoding", [])
+            if [e["hasher"], mech] not in chk.extra["lenient_decoding"]:
+                chk.extra["lenient_decoding"].append([e["hasher"], mech])
+            chk.violation(f"lenient-decoding:{mech}", f"{e['hasher']}.{e['call']}: lenient decoding ({mech}): an undocumented re-spelling of the same value verified: {wit!r}",
                           {"hasher": e["hasher"], "kind": e["kind"], "call": e["call"], "outcome": e["outcome"], "mutant": wit, "original": "".join(map(chr, e["original"]))})
             continue
         chk.violation(f"{e['hasher']}:{e['call']}:{e['kind']}:{e['outcome']}",
